@@ -179,6 +179,19 @@ theorem parse_binds (bs : List Bound) (rest : List Tok) (hb : ∀ b ∈ bs, b.ok
            if endsAbsent (bs.map (·.call)) then readOptionalSpaces rest else rest) ∧ srcs.length = bs.length :=
   PlasVerif.Proofs.Args.parse_binds bs rest hb hw
 
+/-- **The recorded source.** In the same situation the source pieces the invocation records (`argSource`) are, argument
+    by argument, exactly the text written for that argument (nothing for an absent optional one, blanks in front
+    dropped); their concatenation is `callSource`.  The model of `Macro.parse` is a function of the signature and the
+    stream only: an invocation nested in one of the arguments cannot change what the enclosing one records (the
+    document-level oracle checks the same of the code, whose `Argument` objects are shared by all invocations). -/
+theorem parse_records_source (bs : List Bound) (rest : List Tok) (hb : ∀ b ∈ bs, b.ok)
+    (hw : wfCall (bs.map (·.call)) rest = true) :
+    parse (bs.map (·.arg)) (renderCall (bs.map (·.call)) ++ rest) =
+      .ok (bs.map (·.val), bs.map (fun b => some (argBody b.call)),
+           if endsAbsent (bs.map (·.call)) then readOptionalSpaces rest else rest) ∧
+    (((bs.map (·.call)).map (fun c => some (argBody c))).filterMap id).flatten = callSource (bs.map (·.call)) :=
+  ⟨PlasVerif.Proofs.Args.parse_binds_src bs rest hb hw, PlasVerif.Proofs.Args.sources_flatten _⟩
+
 /-- … and with one more argument of any type in last position (the TeX-style scanner types `Number`, `Dimen`, `Glue`
     are generated there; `scanner_number/dimen/glue` give its `readArgument` result): everything before it is bound as in
     `parse_binds`, it is bound to its value, and what it leaves is what is left. -/
